@@ -183,7 +183,15 @@ def clear_adj_rib(
             reactor.processes.answer_error_sync(service)
             return False
         words = command.split()
-        direction = 'in' if 'in' in words else 'out'
+        if 'in' in words:
+            direction = 'in'
+        elif 'out' in words:
+            direction = 'out'
+        else:
+            # `rib clear` / `rib clear sideways` withdrew the whole Adj-RIB-Out of every neighbor and answered done
+            self.log_failure(f'rib clear needs a direction (in or out) : {command}')
+            reactor.processes.answer_error_sync(service)
+            return False
         reactor.asynchronous.schedule(service, command, callback(self, peers, direction))
         return True
     except ValueError:
